@@ -21,7 +21,7 @@ import (
 func init() {
 	register(&explore.Prop{
 		ID: "C19", Level: levelFE, Explorer: "E3 environment-answer enumerator",
-		Rule: "file-backed segments (small mixed; 257-doc three-block; 1025-doc two-doc-value-chunk) whose segment.Data reads go through a fault-injecting io.ReaderAt; warm-up prefix = every sequence of <=1 (quick) / <=2 (thorough) read operations on the small segment, one fewer on each larger one, drawn from a 18-operation menu (incl. three operations that step a long-lived postings / dictionary iterator) (decides which caches are warm); then for the next operation X the storage fails at EVERY read index of X, persistently (every later read fails) or transiently (only that read); then EVERY follow-up operation of the menu runs, with the objects X left behind and with fresh objects; " +
+		Rule: "file-backed segments (small mixed; 257-doc three-block; 1025-doc two-doc-value-chunk) whose segment.Data reads go through a fault-injecting io.ReaderAt; warm-up prefix = every sequence of <=1 (quick) / <=2 (thorough) read operations on the small segment, one fewer on each larger one, drawn from a 19-operation menu (incl. three operations that step a long-lived postings / dictionary iterator) (decides which caches are warm); then for the next operation X the storage fails at EVERY read index of X, persistently (every later read fails) or transiently (only that read); then EVERY follow-up operation of the menu runs, with the objects X left behind and with fresh objects; " +
 			"oracle: X returns an error (what it delivered before is a prefix of the correct result), or an empty result, or the complete correct result; after X and after every follow-up the FST-cache mutex is free (a held mutex would block every later lookup), nothing panics; after a transient fault, follow-ups through fresh objects return the correct result or an error; distinct = (segment, prefix, X, read index, fault kind); non-trivial = the injected fault was actually hit",
 		Assumptions: []string{"the injector is installed by reflection into the struct of bluge_segment_api v0.2.0 (pinned in go.sum); harness only, ice untouched", "fail model: ReadAt returns (0, error)", "blocking is detected by the invariant 'mutex free between calls' (VerifMutexFree), not by timeouts; the 300 s per-case watchdog is a backstop"},
 		Budget:      qBudget, Run: runC19,
@@ -226,6 +226,27 @@ func c19Menu(n uint64) []c19Op {
 			}
 			return nil
 		}},
+		{"stored(nested)", func(st *c19State, emit func(string)) error {
+			// a stored-field visit of the last document nested in the first callback of a visit of
+			// document 0 (two per-call read contexts are alive at the same time)
+			first := true
+			var innerErr error
+			err := st.seg.VisitStoredFields(0, func(f string, v []byte) bool {
+				emit(fmt.Sprintf("outer %s=%q", f, v))
+				if first {
+					first = false
+					innerErr = st.seg.VisitStoredFields(st.last, func(f2 string, v2 []byte) bool {
+						emit(fmt.Sprintf("inner %s=%q", f2, v2))
+						return false // the inner visitor stops early
+					})
+				}
+				return innerErr == nil
+			})
+			if err == nil {
+				err = innerErr // the operation as a whole reports the nested call's error
+			}
+			return err
+		}},
 		{"contains(a)", func(st *c19State, emit func(string)) error {
 			d, err := st.seg.Dictionary("a")
 			if err != nil {
@@ -419,7 +440,7 @@ func isPrefix(a, b []string) bool {
 func runC19(c *explore.Ctx) {
 	names, images, err := c19Segments(c.Thorough())
 	if err != nil {
-		c.R.Error = "C19 environment: " + err.Error()
+		envFail(c, "C19 environment: "+err.Error())
 		return
 	}
 	for si := range images {
@@ -444,12 +465,12 @@ func runC19(c *explore.Ctx) {
 		for oi, op := range menu {
 			_, st, err := open()
 			if err != nil {
-				c.R.Error = "C19 fault-free load: " + err.Error()
+				envFail(c, "C19 fault-free load: "+err.Error())
 				return
 			}
 			r := runOp(op, st)
 			if r.err != nil || r.panic != "" {
-				c.R.Error = fmt.Sprintf("C19 fault-free %s on %s failed: %v %s", op.name, names[si], r.err, r.panic)
+				envFail(c, fmt.Sprintf("C19 fault-free %s on %s failed: %v %s", op.name, names[si], r.err, r.panic))
 				return
 			}
 			correct[oi] = r.items
@@ -459,7 +480,7 @@ func runC19(c *explore.Ctx) {
 		{
 			probe := &faultRA{b: img, failFrom: -1, failOnly: -1}
 			if msg := explore.Guard(func() { ice.Load(faultData(probe, len(img))) }); msg != "" {
-				c.R.Error = "C19 fault-free load panicked: " + msg
+				envFail(c, "C19 fault-free load panicked: "+msg)
 				return
 			}
 			loadReads := probe.reads
@@ -524,6 +545,7 @@ func runC19(c *explore.Ctx) {
 		for _, pre := range prefixes {
 			for xi, x := range menu {
 				// count the reads of X after the prefix
+				c19PoolReset()
 				ra, st, err := open()
 				if err != nil {
 					c.R.Error = err.Error()
@@ -561,8 +583,12 @@ func runC19(c *explore.Ctx) {
 	}
 }
 
+// c19PoolReset is installed by the instrumented build (c19_pools.go).
+var c19PoolReset = func() {}
+
 func c19Case(c *explore.Ctx, scope string, idx int64, cas string, open func() (*faultRA, *c19State, error),
 	menu []c19Op, correct [][]string, pre []int, xi, ri int, transient bool) {
+	c19PoolReset()
 	ra, st, err := open()
 	if err != nil {
 		c.R.Error = err.Error()
